@@ -1,7 +1,7 @@
 #!/venv/bin/python
 """Syntactic mutation study (objective counterpart of the seeded changes written by sub-agents).
 
-  tools/mutstudy.py <out.json> [per_file] [seed]
+  tools/mutstudy.py <out.json> [per_file] [seed] [executed.json] [max_checks_per_mutant]
 
 1. every function of every library module is mutated one site at a time (comparison boundaries, +/-, *//, small constants,
    min/max, unary minus, and/or, negated conditions);
@@ -83,7 +83,8 @@ def apply(kind, node, i):
         node.test = ast.UnaryOp(op=ast.Not(), operand=node.test)
 
 
-def all_mutants():
+def all_mutants(executed=None):
+    """executed: optional set of (file, function name) that the drivers are known to run (dead code yields only equivalent mutants)"""
     muts = []
     for rel in FILES:
         src = open(os.path.join(REPO, rel)).read()
@@ -91,6 +92,8 @@ def all_mutants():
         for k in range(n):
             t = ast.parse(src)
             kind, node, i, fname = sites(t)[k]
+            if executed is not None and (rel, fname) not in executed:
+                continue
             line = getattr(node, "lineno", 0)
             apply(kind, node, i)
             muts.append({"file": rel, "func": fname, "kind": kind, "line": line, "k": k, "src": ast.unparse(t)})
@@ -130,7 +133,11 @@ def main():
     per_file = int(sys.argv[2]) if len(sys.argv) > 2 else 8
     seed = int(sys.argv[3]) if len(sys.argv) > 3 else 1
     verif = os.path.dirname(os.path.dirname(os.path.abspath(__file__)))
-    muts = all_mutants()
+    executed = None
+    if len(sys.argv) > 4:                        # JSON list of [file, function, line] executed by the drivers (profile run)
+        executed = {(f, n) for f, n, _ in json.load(open(sys.argv[4]))}
+    max_checks = int(sys.argv[5]) if len(sys.argv) > 5 else 99
+    muts = all_mutants(executed)
     r = random.Random(seed)
     # the suite is fast: try up to 60 mutants per file
     byfile = {}
@@ -157,7 +164,7 @@ def main():
             sh(f"git -C {REPO} archive HEAD | tar -x -C {wd}")
             open(os.path.join(wd, m["file"]), "w").write(m["src"])
             rec = {"file": f, "func": m["func"], "kind": m["kind"], "line": m["line"], "checks": {}, "killed_by": None}
-            for p in FILES[f]:
+            for p in FILES[f][:max_checks]:
                 t = time.time()
                 rc, o = sh(["./check", p], env=dict(os.environ, VERIF_REPO=wd, VERIF_SCRATCH_BASE="/tmp"), cwd=verif, timeout=1500)
                 first = next((l for l in o.splitlines() if l.startswith("  verdict=")), "")
